@@ -14,6 +14,7 @@ MUTANTS = [
     ('utils::greatest_lower_bound', 'index\\.checked_sub\\(1\\)', 'index.checked_sub(2)'),
     ('types::SourceMap::lookup_token', 'token\\.is_range\\(\\) && token\\.get_dst_line\\(\\) == line', 'token.is_range()'),
     ('types::Token::get_src_col', 'saturating_add', 'wrapping_add'),
+    ('types::TokenIter::seek', r'self\.next_idx = token\.idx \+ 1;', 'self.next_idx = token.idx;'),
 ]
 
 
@@ -56,6 +57,8 @@ def build(u):
     def prep_lookup(f):
         u.count('R-closure', f.annotate_closure('t', 't: &RawToken', '(k: (u32, u32)) ensures k == $BODY', expect=1))
     emit_method(u, T, r'SourceMap\b', 'lookup_token', 'types::SourceMap::lookup_token', prep=prep_lookup)
+    # positions the iterator just after the token that (line, col) resolves to
+    emit_method(u, T, r"TokenIter<'_>", 'seek', 'types::TokenIter::seek')
 
     def prep_new(f):
         u.count('R-shim-call', f.rewrite(r'\b([a-z_]+)\.sort_unstable_by_key\(', r'verif_sort_unstable_by_key(&mut \1, ', expect=1))
